@@ -597,6 +597,7 @@ pub fn check_inst(f: &GraphFacts, ex: &Exec, inst: &Inst, rep: &mut Report) -> B
             let Some(actual) = ex.values.get(&oid) else { continue };
             let vname = g.node_name(oid);
             let mut local: Vec<Violation> = Vec::new();
+            let mut pending_expr_names: BTreeMap<String, i64> = BTreeMap::new();
             let mut checked_fixed = false;
 
             // Precise signature for the known Pow defect (C15): the output keeps
@@ -863,14 +864,17 @@ pub fn check_inst(f: &GraphFacts, ex: &Exec, inst: &Inst, rep: &mut Report) -> B
                                             env.insert(name.clone(), *a as i64);
                                         }
                                     },
-                                    Err(name) => match expr_names.get(name) {
+                                    // bindings made by this value are only published (below) if the
+                                    // value itself turns out consistent: a value already in violation
+                                    // (e.g. a known Reshape finding) must not be blamed on its neighbours
+                                    Err(name) => match expr_names.get(name).or_else(|| pending_expr_names.get(name)) {
                                         Some(prev) if *prev != *a as i64 => local.push(Violation {
                                             sig: shape_sig("dim-expr-name"),
                                             detail: ctx(format!("dim {k} is named `{name}`, which named a dim of size {prev} elsewhere, but here execution produced shape {ashape:?}")),
                                         }),
                                         Some(_) => {}
                                         None => {
-                                            expr_names.insert(name.clone(), *a as i64);
+                                            pending_expr_names.insert(name.clone(), *a as i64);
                                         }
                                     },
                                 }
@@ -948,6 +952,9 @@ pub fn check_inst(f: &GraphFacts, ex: &Exec, inst: &Inst, rep: &mut Report) -> B
             if checked_fixed {
                 rep.nontrivial = true;
                 rep.label(&format!("checked-op:{op_name}"));
+            }
+            if local.is_empty() {
+                expr_names.append(&mut pending_expr_names);
             }
             if !local.is_empty() {
                 tainted.insert(oid);
